@@ -91,7 +91,12 @@ class ExteriorDerivative(LinearOperator):
 
             b = S.One
             if vectors:
-                b = cls(Mul(*vectors), evaluate=False)
+                # once a coefficient has been pulled out, the remaining factor is
+                # evaluated again (d(2*d(u)) = 2*d(d(u)) = 0, d(a*(u+v)) = a*d(u) + a*d(v))
+                if coeffs:
+                    b = cls(Mul(*vectors))
+                else:
+                    b = cls(Mul(*vectors), evaluate=False)
 
             return Mul(a, b)
 
@@ -180,7 +185,10 @@ class ExteriorProduct(LinearOperator):
             right  = b
         # ...
 
-        return alpha*cls(left, right, evaluate=False)
+        if not( alpha == S.One ):
+            return alpha*cls(left, right)
+
+        return cls(left, right, evaluate=False)
 
     @property
     def math_symbol(self):
@@ -423,7 +431,12 @@ class AdjointExteriorDerivative(LinearOperator):
 
             b = S.One
             if vectors:
-                b = cls(Mul(*vectors), evaluate=False)
+                # once a coefficient has been pulled out, the remaining factor is
+                # evaluated again (d(2*d(u)) = 2*d(d(u)) = 0, d(a*(u+v)) = a*d(u) + a*d(v))
+                if coeffs:
+                    b = cls(Mul(*vectors))
+                else:
+                    b = cls(Mul(*vectors), evaluate=False)
 
             return Mul(a, b)
 
@@ -571,7 +584,12 @@ class Hodge(LinearOperator):
 
             b = S.One
             if vectors:
-                b = cls(Mul(*vectors), evaluate=False)
+                # once a coefficient has been pulled out, the remaining factor is
+                # evaluated again (d(2*d(u)) = 2*d(d(u)) = 0, d(a*(u+v)) = a*d(u) + a*d(v))
+                if coeffs:
+                    b = cls(Mul(*vectors))
+                else:
+                    b = cls(Mul(*vectors), evaluate=False)
 
             return Mul(a, b)
 
